@@ -47,6 +47,9 @@ def generate(seed, stratum, tier):
                              spec_kw=kw, ops=ops, weights=weights, nops=(5, 40))
   if sibling:
     sc['sibling'] = True
+  if rng.random() < 0.3:
+    # live output switched on: it must not change which events a step or a circuit dispatches
+    sc['live_spy'], sc['live_trace'] = rng.choice([(True, False), (False, True), (True, True)])
   return sc
 
 
